@@ -287,7 +287,7 @@ func (p *Parser) parseBetweenExpression(left Expression) Expression {
 		return nil
 	}
 
-	expression.Range[0] = p.parseIdentifier()
+	expression.Range[0] = p.parseExpression(precedenceValueComparators)
 
 	if !p.expectPeek(AND) {
 		return nil
@@ -299,7 +299,7 @@ func (p *Parser) parseBetweenExpression(left Expression) Expression {
 		return nil
 	}
 
-	expression.Range[1] = p.parseIdentifier()
+	expression.Range[1] = p.parseExpression(precedenceValueComparators)
 
 	return expression
 }
